@@ -545,8 +545,46 @@ def check_stall(scn, res):
     return viols
 
 
+def check_waits(scn, res):
+    """C04 without a scripted stall: whenever a synchronized consumer takes no set for longer than the settling time (it is waiting for
+    one of its other sources), each of its direct producers has stopped publishing towards it by then."""
+
+    viols = []
+    fam   = family(scn)
+    fs    = fdict(scn)
+    ct    = scn.get('conn_timeout') or 5000
+
+    for f in scn['filters']:
+        ups = [(up, ep) for up, eph, _, ep in sources_of(f) if eph == 0]
+
+        if len(ups) < 2:
+            continue
+
+        times = [0] + [e['t'] for e in res.log if e['ev'] == 'process' and e['f'] == f['name']] + [res.now]
+
+        for t0, t1 in zip(times, times[1:]):
+            if t1 - t0 <= C04_SETTLE or t1 - t0 >= ct:
+                continue
+
+            for up, ep in ups:
+                pubs = [(t, info[2]) for t, ev, label, info, seq in res.wire
+                        if ev == 'pub' and info[0] == 'pub' and info[1] == up and info[3] == '//' and (info[2] or 0) >= 0
+                        and label.split('@', 1)[1] == f'ipc://{ep}' and t0 + C04_SETTLE < t < t1]
+
+                if pubs:
+                    viols.append({'signature': f'C04/runs-ahead-of-waiting-join/{fam}', 'what': f'[{scn.get("name")}] {f["name"]} took no set between {t0} and {t1} ms '
+                                  f'(waiting for another source), yet {up} published {len(pubs)} frames towards it later than {C04_SETTLE} ms into the wait '
+                                  f'(ids {[p[1] for p in pubs][:8]} at {[p[0] for p in pubs][:8]} ms): the queue grows with the wait', 'detail': pubs[:20]})
+                    break
+
+            if viols:
+                break
+
+    return viols
+
+
 def oracle_c04(scn, res):
-    return check_stall(scn, res) + check_order(scn, res) + check_sets(scn, res), outcome(res)
+    return (check_waits(scn, res) if scn.get('c04_waits') else check_stall(scn, res)) + check_order(scn, res) + check_sets(scn, res), outcome(res)
 
 
 # ---- C05: ephemeral listeners -----------------------------------------------------------------------------------------------
